@@ -221,6 +221,8 @@ class Exec {
   std::shared_ptr<SimAlphabet> tAlph; std::shared_ptr<bpp::HmmTransitionMatrix> tMat;   // standalone transition-matrix party
   std::vector<std::string> pnames;         // likelihood parameter names (same on all replicas)
   std::vector<std::string> tnames;         // names that belong to the transition model
+  std::map<std::string, double> tpar;      // parameter values of the standalone transition-matrix party
+  void resyncTpar() { tpar.clear(); for (auto& nme : tnames) tpar[nme] = tMat->getParameterValue(tMat->getParameterNameWithoutNamespace(nme)); }
 public:
   Exec(const Plan& pl, Ctx& c) : p(pl), ctx(c) {}
 
@@ -246,24 +248,25 @@ public:
   }
 
   // P of the current parameter values: a FRESH transition object (never queried for anything else) for the built-in models
-  std::vector<std::vector<LD>> currentP() {
+  std::vector<std::vector<LD>> currentP() { return currentP(m.params); }
+  std::vector<std::vector<LD>> currentP(const std::map<std::string, double>& par) {
     std::vector<std::vector<LD>> P(m.n, std::vector<LD>(m.n));
     if (m.transType == 1) {      // documented definition of the auto-correlation model
-      for (size_t i = 0; i < m.n; ++i) for (size_t j = 0; j < m.n; ++j) { LD l = m.params.at("lambda" + std::to_string(i + 1)); P[i][j] = i == j ? l : (1 - l) / static_cast<LD>(m.n - 1); }
+      for (size_t i = 0; i < m.n; ++i) for (size_t j = 0; j < m.n; ++j) { LD l = par.at("lambda" + std::to_string(i + 1)); P[i][j] = i == j ? l : (1 - l) / static_cast<LD>(m.n - 1); }
       return P;
     }
     auto a = std::make_shared<SimAlphabet>(m.n);
     std::shared_ptr<bpp::HmmTransitionMatrix> t = makeTrans(a);
-    bpp::ParameterList pl; for (auto& nme : tnames) pl.addParameter(bpp::Parameter(nme, m.params.at(nme)));
+    bpp::ParameterList pl; for (auto& nme : tnames) pl.addParameter(bpp::Parameter(nme, par.at(nme)));
     t->matchParametersValues(pl);
     const bpp::Matrix<double>& M = t->getPij();
     for (size_t i = 0; i < m.n; ++i) for (size_t j = 0; j < m.n; ++j) P[i][j] = M(i, j);
     return P;
   }
 
-  void checkTransition(const bpp::HmmTransitionMatrix& t, const std::string& who, int order) {
+  void checkTransition(const bpp::HmmTransitionMatrix& t, const std::string& who, int order) { checkTransition(t, who, order, currentP()); }
+  void checkTransition(const bpp::HmmTransitionMatrix& t, const std::string& who, int order, const std::vector<std::vector<LD>>& P) {
     // row-stochastic matrix + genuine stationary distribution, whatever the order of the queries
-    std::vector<std::vector<LD>> P = currentP();
     std::vector<LD> pi; stationaryOf(P, pi);
     auto readP = [&] {
       const bpp::Matrix<double>& M = t.getPij();
@@ -388,6 +391,7 @@ public:
     for (int k = 1; k < 3; ++k) ctx.check(rep[k].lik->getParameters().getParameterNames() == pnames, "model-mismatch:parameter-names", "model-mismatch:parameter-names", "replicas expose different parameters");
     tnames = rep[0].trans->getParameters().getParameterNames();
     for (auto& nme : pnames) m.params[nme] = rep[0].lik->getParameterValue(nme);
+    resyncTpar();
     if (m.L >= 1000) ctx.probe("long-sequence");
     for (size_t i = 0; i < p.ops.size(); ++i) {
       const Op& o = p.ops[i];
@@ -442,7 +446,7 @@ public:
         for (size_t q = 0; q < names.size(); ++q) m.params[names[q]] = vals[q];
         // same update on the standalone transition matrix
         bpp::ParameterList tp; for (size_t q = 0; q < names.size(); ++q) if (std::find(tnames.begin(), tnames.end(), names[q]) != tnames.end()) tp.addParameter(bpp::Parameter(names[q], vals[q]));
-        if (tp.size()) { tMat->matchParametersValues(tp); ctx.probe("transition-parameter-updated"); }
+        if (tp.size()) { tMat->matchParametersValues(tp); for (size_t q = 0; q < tp.size(); ++q) tpar[tp[q].getName()] = tp[q].getValue(); ctx.probe("transition-parameter-updated"); }
         ctx.ok();
       }
       uint64_t sh = 0x13; for (auto& kv : m.params) sh = sh * 1099511628211ULL ^ strHash(hexfloat(kv.second)); ctx.state(sh);
@@ -457,8 +461,43 @@ public:
       doRead(static_cast<size_t>(o.c) % 3, o.a, o.b, o.d);
       ctx.fault("read-order");
     } else if (o.k == "tread") {
-      checkTransition(*tMat, "standalone-transitions", static_cast<int>(o.a));
+      checkTransition(*tMat, "standalone-transitions", static_cast<int>(o.a), currentP(tpar));
       ctx.fault("read-order"); ctx.outcome("read");
+    } else if (o.k == "tset") {
+      // whole-matrix setter of the full model, then reads in a plan-chosen order
+      bpp::FullHmmTransitionMatrix* full = dynamic_cast<bpp::FullHmmTransitionMatrix*>(tMat.get());
+      if (!full || m.n < 2) { ctx.outcome("skip"); return; }
+      uint64_t z = static_cast<uint64_t>(o.b) * 2862933555777941757ULL + 3037000493ULL;
+      bpp::RowMatrix<double> mat(m.n, m.n); std::vector<std::vector<LD>> P(m.n, std::vector<LD>(m.n));
+      for (size_t i = 0; i < m.n; ++i) { double tot = 0; std::vector<double> r(m.n); for (size_t j = 0; j < m.n; ++j) { z = z * 6364136223846793005ULL + 1442695040888963407ULL; r[j] = 0.15 + static_cast<double>((z >> 20) & 0xffff) / 65536.0; tot += r[j]; }
+        for (size_t j = 0; j < m.n; ++j) { mat(i, j) = r[j] / tot; } double acc = 0; for (size_t j = 0; j + 1 < m.n; ++j) acc += mat(i, j); mat(i, m.n - 1) = 1.0 - acc; for (size_t j = 0; j < m.n; ++j) P[i][j] = mat(i, j); }
+      full->setTransitionProbabilities(mat);
+      // tolerance: the simplex coordinates reproduce the row to rounding
+      std::vector<std::vector<LD>> Pobs(m.n, std::vector<LD>(m.n));
+      for (size_t i = 0; i < m.n; ++i) for (size_t j = 0; j < m.n; ++j) { double v = full->Pij(i, j); ctx.check(fabsl(v - P[i][j]) < 1e-12L, "model-mismatch:setTransitionProbabilities", "model-mismatch:setTransitionProbabilities:Pij", "Pij after setTransitionProbabilities"); Pobs[i][j] = v; }
+      checkTransition(*tMat, "standalone-transitions-after-set", static_cast<int>(o.a), Pobs);
+      resyncTpar();
+      checkTransition(*tMat, "standalone-transitions-after-set", static_cast<int>(o.a + 1), currentP(tpar));
+      ctx.probe("whole-matrix-set"); ctx.ok();
+    } else if (o.k == "tcopy") {
+      std::shared_ptr<bpp::HmmTransitionMatrix> c(tMat->clone());
+      tMat = c;                                   // the source is destroyed: the copy must stand alone
+      ctx.fault("peer-gone");
+      checkTransition(*tMat, "standalone-transitions-copy", static_cast<int>(o.a), currentP(tpar));
+      ctx.probe("transition-matrix-copied"); ctx.ok();
+    } else if (o.k == "tassign") {
+      if (m.transType == 2) { ctx.outcome("skip"); return; }
+      std::shared_ptr<bpp::HmmTransitionMatrix> other = makeTrans(tAlph);
+      bpp::ParameterList pl; std::map<std::string, double> opar;
+      for (size_t q = 0; q < tnames.size(); ++q) { double x = o.x + 0.211 * static_cast<double>(q); x -= std::floor(x); double v = mapValue(tnames[q], x, false); pl.addParameter(bpp::Parameter(tnames[q], v)); opar[tnames[q]] = v; }
+      other->matchParametersValues(pl);
+      if (o.b & 1) other->getPij(); if (o.b & 2) other->getEquilibriumFrequencies();       // caches of the source in any state
+      if (m.transType == 0) *dynamic_cast<bpp::FullHmmTransitionMatrix*>(tMat.get()) = *dynamic_cast<bpp::FullHmmTransitionMatrix*>(other.get());
+      else *dynamic_cast<bpp::AutoCorrelationTransitionMatrix*>(tMat.get()) = *dynamic_cast<bpp::AutoCorrelationTransitionMatrix*>(other.get());
+      other.reset(); ctx.fault("peer-gone");
+      tpar = opar;
+      checkTransition(*tMat, "standalone-transitions-assigned", static_cast<int>(o.a), currentP(tpar));
+      ctx.probe("transition-matrix-assigned"); ctx.ok();
     } else ctx.fail("harness", "harness:unknown-op", o.k);
   }
 };
@@ -472,8 +511,8 @@ public:
     i.stub = {"SimAlphabet", "SimEmissions (position x state table, parameters theta and phi, analytic first/second emission derivatives)", "SimTransitions (table model with exact zeros and its own stationary vector)"};
     i.rule = "plans: seeded interleavings of broadcast parameter updates (single / bulk / match, with a rejected entry at a plan-chosen position), break-point changes and reads (log-likelihood, posteriors, per-site likelihoods, first/second derivatives, transition matrix / stationary vector in every query order) on a plan-chosen replica; non-trivial = >=3 accepted updates or break-point changes and >=1 read-order perturbation or rejected update; distinct = distinct fingerprint of the executed op-kind/outcome sequence";
     i.simTime = "steps (no clock in this component)";
-    i.faultKinds = {"read-order", "reject@k"};
-    i.probeNames = {"path-enumeration-compared", "posterior-compared", "first-derivative-compared", "second-derivative-compared", "getPij-read-before-eqfreq", "break-points-set", "transition-parameter-updated", "long-sequence", "fresh-replica-compared", "replicas-share-components"};
+    i.faultKinds = {"read-order", "reject@k", "peer-gone"};
+    i.probeNames = {"path-enumeration-compared", "posterior-compared", "first-derivative-compared", "second-derivative-compared", "getPij-read-before-eqfreq", "break-points-set", "transition-parameter-updated", "long-sequence", "fresh-replica-compared", "replicas-share-components", "whole-matrix-set", "transition-matrix-copied", "transition-matrix-assigned"};
     i.assumptions = {"reads a class documents as unimplemented (NotImplementedException) are recorded and skipped",
                      "derivatives are taken with respect to emission parameters only (the interface differentiates through HmmEmissionProbabilities)",
                      "built-in transition models are driven with coordinates in [0.15,0.85] so that the chain mixes fast enough for the library's fixed 256-step power to reach the stationary vector to 1e-9",
@@ -500,16 +539,16 @@ public:
     p.cfg["finalorder"] = rng.below(1000);
     p.cfg["shared"] = rng.chance(0.3) ? 1 : 0;
     long n = L > 200 ? rng.range(3, 8) : rng.range(3, 25);
-    std::vector<double> w = {3, 1, 5, 1.5};
+    std::vector<double> w = {3, 1, 5, 1.5, 0.5, 0.3, 0.4};
     for (auto& x : w) if (rng.chance(0.2)) x *= 2.5;
-    static const char* K[] = {"upd", "bp", "read", "tread"};
+    static const char* K[] = {"upd", "bp", "read", "tread", "tset", "tcopy", "tassign"};
     for (long i = 0; i < n; ++i) {
       Op o(K[rng.weighted(w)]);
       o.a = rng.below(1 << 20); o.b = rng.below(1 << 20); o.c = rng.below(5000); o.d = rng.below(18);
       o.x = rng.unit();
       if (o.k == "read") { o.a = rng.below(9); if (rng.chance(0.35)) o.a = 5 + rng.below(2); o.b = rng.below(2); o.d = rng.below(5000); }
       if (o.k == "bp" && rng.chance(0.2)) { o.a = 0; o.b = 0; o.c = 0; }
-      if (o.k == "tread") o.a = rng.below(6);
+      if (o.k == "tread" || o.k == "tset" || o.k == "tcopy" || o.k == "tassign") o.a = rng.below(6);
       p.ops.push_back(o);
     }
     return p;
